@@ -274,7 +274,9 @@ class PtTempo(BaseAPIClass):
         progress = get_progress(progress_type)
         title = "--> PT-TEMPO computation:"
         with progress(self._backend_instance.num_steps, title) as prog_bar:
-            while self._backend_instance.compute_step():
+            while self._backend_instance.step \
+                    < self._backend_instance.num_steps:
+                self._backend_instance.compute_step()
                 prog_bar.update(self._backend_instance.step)
             prog_bar.update(self._backend_instance.step)
 
